@@ -17,7 +17,7 @@ from gvmon.monitors import contracts
 LEVEL = "fault_enumeration"
 RULE = ("GFF3 file databases with a depth-4 hierarchy, multi-parent and id-less features; histories over the alphabet "
         "{A: update(create_unique batch), B: update(merge batch), C: update(replace batch), E: update([]), D: delete, "
-        "R: add_relation, O: close/reopen}: all words of length <= 3 (quick) / <= 4 (thorough), random words to length 12; "
+        "R: add_relation, O: close/reopen}: all words of length <= 3 (quick) / <= 5 (thorough), random words to length 12; "
         "fault cases: an update of n features whose one-shot source raises at position k for every k in 0..n, "
         "checklines 0 and 1; non-trivial history = contains an update after a delete or reopen; distinct by (base salt, word) "
         "and by (n, k, checklines)")
@@ -531,7 +531,7 @@ def nontrivial(word):
 
 def run(ctx):
     rng = ctx.rng
-    depth = 3 if ctx.tier == "quick" else 4
+    depth = 3 if ctx.tier == "quick" else 5
     i = 0
     for L in range(1, depth + 1):
         for word in itertools.product(ALPHABET, repeat=L):
